@@ -135,6 +135,7 @@ type vC10sScenario struct {
 	prep func(env *vC10sEnv) Storage             // fault-free setup, returns the storage object the operation uses (may be nil)
 	run  func(env *vC10sEnv, st Storage) error   // the operation under test
 	post func(env *vC10sEnv, st Storage, tag string) // extra checks after a successful run
+	live bool                                       // after an injected error the same live storage object is used again (not reopened)
 }
 
 func vC10sScenarios(b *vBuilder) []vC10sScenario {
@@ -203,6 +204,24 @@ func vC10sScenarios(b *vBuilder) []vC10sScenario {
 				return d.AddAllNoError(ctx, []StorageChange{vC10sChange("c1", "b1", "r"), vC10sChange("c2", "b2", "c1")}, []string{"c2"}, "r")
 			},
 		},
+		{ // 7: the deferred storage object a tree holds: a failed first add is retried on the same object
+			live: true,
+			prep: func(env *vC10sEnv) Storage {
+				d, err := vC10sSeq(CreateStorageWithDeferredCreation(ctx, r, env.hs, env.db))
+				rt.Assert(err == nil, "setup-deferred")
+				return d
+			},
+			run: func(env *vC10sEnv, st Storage) error {
+				return st.AddAll(ctx, []StorageChange{vC10sChange("c1", "b1", "r")}, []string{"c1"}, "r")
+			},
+		},
+		{ // 8: an eager storage object: a failed add is retried on the same object
+			live: true,
+			prep: create,
+			run: func(env *vC10sEnv, st Storage) error {
+				return st.AddAll(ctx, []StorageChange{vC10sChange("c1", "b1", "r"), vC10sChange("c2", "b2", "c1")}, []string{"c2"}, "r")
+			},
+		},
 	}
 }
 
@@ -247,7 +266,7 @@ func VerifC10Store() {
 		rt.Assert(vC10sDump(env.w) == before, "failed-operation-leaves-the-state-before")
 		vC10sValid(env.w, "after-fault")
 		// the same input is accepted again
-		if st != nil {
+		if st != nil && !sc.live {
 			var err2 error
 			st, err2 = vC10sSeq(NewStorage(context.Background(), "r", env.hs, env.db))
 			rt.Assert(err2 == nil, "tree-reopens-after-fault")
